@@ -1,6 +1,6 @@
 /-
 Driver/C08 — line-protocol driver over the models of Model/Serial (install, download, size,
-ZBSDIFF container). `m <fmt> <hex>` runs parse → build → parse → build on the MODEL and prints the
+ZBSDIFF container), Model/SerialPatchIndex (`m pidx`) and Model/SerialTvfs (`tv`, `tc`). `m <fmt> <hex>` runs parse → build → parse → build on the MODEL and prints the
 same outcome line as the harness prints for the real code; `o …` / `of …` lines (oracle-only
 formats, evaluated on the implementation alone) are answered `-`.
 -/
